@@ -21,6 +21,9 @@ const (
 	dummyAudioFilterStageDummy    = 3
 )
 
+// dummyAudioFilterMaxGapMs 两个视频消息之间最多补齐这么长时间的静音帧，超过则认为时间戳发生了跳变
+const dummyAudioFilterMaxGapMs = 10 * 1000
+
 type DummyAudioFilter struct {
 	uk          string
 	waitAudioMs int
@@ -145,14 +148,28 @@ func (filter *DummyAudioFilter) handleDummyStage(msg base.RtmpMsg) {
 		filter.onPopProxy(msg)
 		filter.prevAudioTs = ats
 	} else {
-		for {
-			ats := filter.prevAudioTs + filter.calcAudioDurationMs()
-			if ats > msg.Header.TimestampAbs {
-				break
-			}
+		// 视频时间戳与上一个静音帧之间的间隔，按uint32回绕的方式计算
+		gap := int32(msg.Header.TimestampAbs - filter.prevAudioTs)
+		if gap > dummyAudioFilterMaxGapMs {
+			// 时间戳向前跳变（比如上游重置了时间戳），不逐帧补齐这段间隔（补齐的帧数与间隔成正比，间隔可达2^32毫秒），
+			// 直接在新的时间戳处重新开始
+			ats := msg.Header.TimestampAbs
 			amsg := filter.makeOneAudio(ats)
 			filter.onPopProxy(amsg)
 			filter.prevAudioTs = ats
+		} else {
+			// 注意，gap为负数（时间戳回退）时，不补静音帧
+			for {
+				d := filter.calcAudioDurationMs()
+				if gap < int32(d) {
+					break
+				}
+				ats := filter.prevAudioTs + d
+				amsg := filter.makeOneAudio(ats)
+				filter.onPopProxy(amsg)
+				filter.prevAudioTs = ats
+				gap -= int32(d)
+			}
 		}
 		filter.onPopProxy(msg)
 	}
